@@ -32,6 +32,19 @@ CLAIMS = {
         "Decides that each rule is enforced in the single visitor every context goes through, not 'all embeddings' as such.",
    technique="guard-chain extraction of diagnostic sites + role predicates, CFG must-pass-through, grammar/table exhaustiveness",
    ref="DESIGN.md §2 C14"),
+ "C15": dict(
+   text="Static analysis of the inliner: the set of ASTLowerer maps that statement lowering can mutate is computed over the call graph; for each, a snapshot must dominate the "
+        "lowering of the callee body and a restore must lie on every normal exit (CFG, finally-aware); the parameter environment must be replaced, not merged; every id a declaration "
+        "registers must have a per-instance counter in its backward slice; wildcard signals never become actual-argument types. Decides hygiene of the inliner's bookkeeping, not "
+        "equivalence with the manually inlined program.",
+   technique="call-graph effect analysis + CFG dominance/must-pass-through for save/restore pairing + def-use slices for id freshness",
+   ref="DESIGN.md §2 C15"),
+ "C16": dict(
+   text="Static analysis: the iteration-sequence function must match an accepted idiom (strict exclusive end per direction, append before advance, start from start, list order kept); "
+        "analyzer and lowerer both draw from that one function; resolvers raise instead of defaulting; per-iteration scope save/cut-back for every map the body can mutate; iterator "
+        "immutable; declaration ids fresh per iteration; transformer passes start/stop/step/values in grammar order. Decides these necessary conditions, not equivalence with the unrolled program.",
+   technique="idiom matching over ast + CFG + call-graph effect analysis + def-use slices",
+   ref="DESIGN.md §2 C16"),
 }
 NA_DEFAULT = "check not built yet (build phase in progress); see DESIGN.md for the planned rules"
 NA = {}
